@@ -279,6 +279,12 @@ class SymNP(types.ModuleType):
             raise Unsupported("np.isclose on symbolic values")
         return np.isclose(np.asarray(a, dtype=float), np.asarray(b, dtype=float), *k, **kw)
 
+    def finfo(self, dtype):
+        try:
+            return np.finfo(dtype)
+        except ValueError:
+            return np.finfo(float)        # object arrays stand for float64 storage
+
     def cov(self, m, y=None, rowvar=True, bias=False, ddof=None, fweights=None, aweights=None, **kw):
         if (_has_sym(m) or _has_sym(y)) and aweights is None and fweights is None:
             # numpy's own cov code, routed through the aweights branch (np.average(returned=True)
